@@ -677,6 +677,23 @@ def through_block_ref(adef, path):
     return any(loose(n) in refs for n, _ in path[:-1])
 
 
+def through_inheriting_ref(adef, path):
+    """the instance belongs to a register / command ref that leaves its repeat (or its address) to its target, and the
+    target is repeated (finding F24: the range analysis reads a ref's address and repeat from the override alone)"""
+    objs = list(all_objects(adef["objects"]))
+    by_name = {loose(o["name"]): o for o in objs}
+    if not path:
+        return False
+    o = by_name.get(loose(path[-1][0]))
+    if not o or o["kind"] != "ref" or o["override"]["kind"] not in ("register", "command"):
+        return False
+    t = by_name.get(loose(o["target"]))
+    if not t:
+        return False
+    ov = o["override"]
+    return (not ov.get("repeat") and bool(t.get("repeat"))) or ov.get("address") is None
+
+
 def check_c12(c, af, a, mf):
     if c.get("profile") not in ("collide", "mixed"):
         return None
@@ -869,6 +886,8 @@ def check_c04(c, af, a, mf):
             fid = None
             if known and through_block_ref(c["adef"], g["path"]):
                 fid = "F6b-minmax-ignores-block-ref-children"
+            elif known and through_inheriting_ref(c["adef"], g["path"]):
+                fid = "F24-minmax-ignores-what-a-ref-inherits"
             return {"why": f"accessor chain {g['path']}: {g['value']} does not fit {g['address_type']}; the cast wraps and the interface gets another address", "finding": fid}
     dead = []
     missing = [k for k in want if k not in seen and not any(k[:len(d)] == d for d in dead)]
@@ -959,6 +978,8 @@ def check_c13(c, af, a, mf):
         fid = None
         if known and through_block_ref(adef, x["path"]):
             fid = "F6b-minmax-ignores-block-ref-children"
+        elif known and through_inheriting_ref(adef, x["path"]):
+            fid = "F24-minmax-ignores-what-a-ref-inherits"
         return {"why": f"{x['kind']} instance {x['path']} has address {x['address']} outside {t} but the definition is accepted", "finding": fid}
     if oc == "error" and af.get("kind", "").startswith("addr_too_"):
         nums = [int(x) for x in (af.get("numbers") or [])]
